@@ -392,36 +392,62 @@ example :
   refine ⟨_, rfl, ?_⟩
   decide
 
-/-- **Action of the periodic agent**: every action is `node-application-execute` of the configured application
-(the only non-idle output of the model) on a node of `possible_start_nodes`, and always the same node. -/
-theorem C19_periodic_action_node (c : PeriodicCfg) :
+/-- What the action theorem needs from a step function (both `periodicStep` and `dmStep` provide it). -/
+def NodeTri (c : PeriodicCfg) (step : PeriodicState → Int → Int → Nat → PeriodicState × PeriodicOut) : Prop :=
+  (∀ s t d k, s.dead = true → step s t d k = (s, .raised)) ∧
+  ∀ s t d k, let r := step s t d k
+    (r.2 = .doNothing ∧ r.1 = s) ∨
+    (∃ n, r.2 = .execute n ∧ r.1.startNode = some n ∧
+      (s.startNode = some n ∨ (s.startNode = none ∧ n = k ∧ k < c.nStartNodes))) ∨
+    (r.2 = .raised ∧ r.1.dead = true)
+
+theorem nodeTri_periodic (c : PeriodicCfg) : NodeTri c (periodicStep c) := by
+  refine ⟨fun s t d k hd => by simp [periodicStep, hd], fun s t d k => ?_⟩
+  rcases periodicStep_tri c s t d k with ⟨he, hs, _, _⟩ | ⟨n, he, _, _, _, _, _, _, hsn, hfrom, _⟩ | ⟨he, hdead⟩
+  · exact Or.inl ⟨he, hs⟩
+  · exact Or.inr (Or.inl ⟨n, he, hsn, hfrom⟩)
+  · exact Or.inr (Or.inr ⟨he, hdead⟩)
+
+/-- Generic action theorem: every `execute` of a run names a node of `possible_start_nodes`, and always the same one. -/
+theorem action_node_generic (c : PeriodicCfg) (step : PeriodicState → Int → Int → Nat → PeriodicState × PeriodicOut)
+    (H : NodeTri c step) :
     ∀ (ins : List PIn) (s : PeriodicState) (t : Int),
       (∀ m, s.startNode = some m → m < c.nStartNodes) →
-      ∀ n, .execute n ∈ runFrom (periodicStep c) s t ins →
+      ∀ n, .execute n ∈ runFrom step s t ins →
         n < c.nStartNodes ∧ (∀ m, s.startNode = some m → n = m) ∧
-        ∀ n', .execute n' ∈ runFrom (periodicStep c) s t ins → n' = n := by
+        ∀ n', .execute n' ∈ runFrom step s t ins → n' = n := by
+  obtain ⟨Hdead, Htri⟩ := H
+  have hnone : ∀ (js : List PIn) (s : PeriodicState) (t : Int), s.dead = true →
+      ∀ x, PeriodicOut.execute x ∉ runFrom step s t js := by
+    intro js
+    induction js with
+    | nil => intro s t _ x h; simp [runFrom] at h
+    | cons j js ihj =>
+      intro s t hd x h
+      simp only [runFrom, Hdead s t j.d j.k hd, List.mem_cons, reduceCtorEq, false_or] at h
+      exact ihj s (t + 1) hd x h
   intro ins
   induction ins with
   | nil => intro s t _ n h; simp [runFrom] at h
   | cons i is ih =>
     intro s t hwf n hmem
-    rcases periodicStep_tri c s t i.d i.k with ⟨he, hs, _, _⟩ | ⟨n0, he, _, _, _, _, _, _, hsn, hfrom, _⟩ | ⟨he, hdead⟩
+    rcases Htri s t i.d i.k with ⟨he, hs⟩ | ⟨n0, he, hsn, hfrom⟩ | ⟨he, hdead⟩
     · simp only [runFrom, he, hs, List.mem_cons, reduceCtorEq, false_or] at hmem ⊢
       exact ih s (t + 1) hwf n hmem
     · have hn0 : n0 < c.nStartNodes := by
         rcases hfrom with h | ⟨_, rfl, hk⟩
         · exact hwf n0 h
         · exact hk
-      have hwf' : ∀ m, (periodicStep c s t i.d i.k).1.startNode = some m → m < c.nStartNodes := by
+      have hwf' : ∀ m, (step s t i.d i.k).1.startNode = some m → m < c.nStartNodes := by
         intro m hm; rw [hsn] at hm; cases hm; exact hn0
-      have hall : ∀ x, .execute x ∈ runFrom (periodicStep c) (periodicStep c s t i.d i.k).1 (t + 1) is → x = n0 := by
+      have hall : ∀ x, .execute x ∈ runFrom step (step s t i.d i.k).1 (t + 1) is → x = n0 := by
         intro x hx
         exact ((ih _ (t + 1) hwf' x hx).2.1 n0 hsn)
       have hs_same : ∀ m, s.startNode = some m → n0 = m := by
         intro m hm
-        rcases hfrom with h | ⟨hnone, _, _⟩
+        rcases hfrom with h | ⟨hnone', _, _⟩
         · rw [h] at hm; cases hm; rfl
-        · rw [hnone] at hm; cases hm
+        · rw [hnone'] at hm; cases hm
       simp only [runFrom, he, List.mem_cons, PeriodicOut.execute.injEq] at hmem ⊢
       have hn : n = n0 := by
         rcases hmem with h | h
@@ -433,18 +459,154 @@ theorem C19_periodic_action_node (c : PeriodicCfg) :
       rcases hn' with h | h
       · exact h
       · exact hall n' h
-    · -- raised: dead afterwards, nothing executes
-      have hnone : ∀ (js : List PIn) (s : PeriodicState) (t : Int), s.dead = true →
-          ∀ x, PeriodicOut.execute x ∉ runFrom (periodicStep c) s t js := by
-        intro js
-        induction js with
-        | nil => intro s t _ x h; simp [runFrom] at h
-        | cons j js ihj =>
-          intro s t hd x h
-          have : periodicStep c s t j.d j.k = (s, .raised) := by simp [periodicStep, hd]
-          simp only [runFrom, this, List.mem_cons, reduceCtorEq, false_or] at h
-          exact ihj s (t + 1) hd x h
-      simp only [runFrom, he, List.mem_cons, reduceCtorEq, false_or] at hmem
+    · simp only [runFrom, he, List.mem_cons, reduceCtorEq, false_or] at hmem
       exact absurd hmem (hnone is _ (t + 1) hdead n)
+
+/-- **Action of the periodic agent**: every action is `node-application-execute` of the configured application
+(the only non-idle output of the model) on a node of `possible_start_nodes`, and always the same node. -/
+theorem C19_periodic_action_node (c : PeriodicCfg) (d0 : Int) (s0 : PeriodicState) (ins : List PIn)
+    (h0 : periodicInit c d0 = some s0) (n : Nat) (h : .execute n ∈ runFrom (periodicStep c) s0 0 ins) :
+    n < c.nStartNodes ∧ ∀ n', .execute n' ∈ runFrom (periodicStep c) s0 0 ins → n' = n := by
+  have hs : s0.startNode = none := by
+    unfold periodicInit at h0
+    split at h0
+    · cases h0; rfl
+    · cases h0
+  have := action_node_generic c _ (nodeTri_periodic c) ins s0 0 (by intro m hm; rw [hs] at hm; cases hm) n h
+  exact ⟨this.1, this.2.2⟩
+
+/-! ## 4. DataManipulationAgent: threshold schedule -/
+
+theorem dmStep_tri (c : PeriodicCfg) (s : PeriodicState) (t d : Int) (k : Nat) :
+    let r := dmStep c s t d k
+    (r.2 = .doNothing ∧ r.1 = s ∧ s.dead = false ∧ t < s.next) ∨
+    (∃ n, r.2 = .execute n ∧ s.dead = false ∧ s.next ≤ t ∧
+        r.1.next = t + c.frequency + d ∧ r.1.dead = false ∧ r.1.startNode = some n ∧
+        (s.startNode = some n ∨ (s.startNode = none ∧ n = k ∧ k < c.nStartNodes)) ∧ 0 ≤ c.variance) ∨
+    (r.2 = .raised ∧ r.1.dead = true) := by
+  intro r
+  cases hd : s.dead with
+  | true => right; right; simp [r, dmStep, hd]
+  | false =>
+    by_cases hc : t < s.next
+    · left; simp [r, dmStep, hd, hc]
+    · have hc' : s.next ≤ t := by omega
+      by_cases hv : randintOk c.variance = true
+      · have hv' : 0 ≤ c.variance := by simpa [randintOk] using hv
+        cases hn : s.startNode with
+        | some n =>
+          right; left
+          exact ⟨n, by simp [r, dmStep, hd, hc, hv, hn], rfl, hc', by simp [r, dmStep, hd, hc, hv, hn],
+            by simp [r, dmStep, hd, hc, hv, hn], by simp [r, dmStep, hd, hc, hv, hn], Or.inl rfl, hv'⟩
+        | none =>
+          by_cases hk : k < c.nStartNodes
+          · right; left
+            exact ⟨k, by simp [r, dmStep, hd, hc, hv, hn, hk], rfl, hc', by simp [r, dmStep, hd, hc, hv, hn, hk],
+              by simp [r, dmStep, hd, hc, hv, hn, hk], by simp [r, dmStep, hd, hc, hv, hn, hk], Or.inr ⟨rfl, rfl, hk⟩, hv'⟩
+          · right; right
+            simp [r, dmStep, hd, hc, hv, hn, hk]
+      · right; right
+        simp [r, dmStep, hd, hc, hv]
+
+theorem nodeTri_dm (c : PeriodicCfg) : NodeTri c (dmStep c) := by
+  refine ⟨fun s t d k hd => by simp [dmStep, hd], fun s t d k => ?_⟩
+  rcases dmStep_tri c s t d k with ⟨he, hs, _, _⟩ | ⟨n, he, _, _, _, _, hsn, hfrom, _⟩ | ⟨he, hdead⟩
+  · exact Or.inl ⟨he, hs⟩
+  · exact Or.inr (Or.inl ⟨n, he, hsn, hfrom⟩)
+  · exact Or.inr (Or.inr ⟨he, hdead⟩)
+
+theorem dm_dead_run (c : PeriodicCfg) :
+    ∀ (ins : List PIn) (s : PeriodicState) (t : Int), s.dead = true →
+      execTimes t (runFrom (dmStep c) s t ins) = [] := by
+  intro ins
+  induction ins with
+  | nil => intro s t _; rfl
+  | cons i is ih =>
+    intro s t hd
+    have : dmStep c s t i.d i.k = (s, .raised) := by simp [dmStep, hd]
+    simp only [runFrom, this, execTimes]
+    exact ih s (t + 1) hd
+
+theorem dm_run_from (c : PeriodicCfg) (hv : c.variance < c.frequency) :
+    ∀ (ins : List PIn) (s : PeriodicState) (t : Int), DrawsIn c.variance ins →
+      let L := execTimes t (runFrom (dmStep c) s t ins)
+      (L = [] ∨ ∃ rest, L = max t s.next :: rest) ∧
+      GapsIn (c.frequency - c.variance) (c.frequency + c.variance) L := by
+  intro ins
+  induction ins with
+  | nil => intro s t _; simp [runFrom, execTimes, GapsIn]
+  | cons i is ih =>
+    intro s t hdr
+    have hdr' : DrawsIn c.variance is := fun j hj => hdr j (List.mem_cons_of_mem i hj)
+    have hi := hdr i List.mem_cons_self
+    rcases dmStep_tri c s t i.d i.k with ⟨he, hs, _, hlt⟩ | ⟨n, he, _, hle, hnext, _, _, _, _⟩ | ⟨he, hdead⟩
+    · simp only [runFrom, he, hs, execTimes]
+      obtain ⟨h2, h3⟩ := ih s (t + 1) hdr'
+      refine ⟨?_, h3⟩
+      have e : max (t + 1) s.next = max t s.next := by omega
+      rw [← e]; exact h2
+    · simp only [runFrom, he, execTimes]
+      obtain ⟨h2, h3⟩ := ih (dmStep c s t i.d i.k).1 (t + 1) hdr'
+      have e : max t s.next = t := by omega
+      refine ⟨Or.inr ⟨_, by rw [e]⟩, ?_⟩
+      rcases h2 with hnil | ⟨rest, hrest⟩
+      · rw [hnil]; simp [GapsIn]
+      · rw [hrest] at h3 ⊢
+        refine ⟨?_, h3⟩
+        rw [hnext]
+        have e2 : max (t + 1) (t + c.frequency + i.d) = t + c.frequency + i.d := by omega
+        rw [e2]; constructor <;> omega
+    · simp only [runFrom, he, execTimes]
+      rw [dm_dead_run c is _ (t + 1) hdead]
+      simp [GapsIn]
+
+/-- **Schedule of the data-manipulation agent**: the first action is at `max 0 start_step` — exactly `start_step`,
+the start variance is drawn and then discarded — and afterwards the gaps are `frequency + d ∈ frequency ± variance`.
+(There is no count bound: this agent never reads `max_executions`.) -/
+theorem C19_dm_schedule (c : PeriodicCfg) (s0 : PeriodicState) (ins : List PIn)
+    (h0 : dmInit c = some s0) (hins : DrawsIn c.variance ins) :
+    let L := execTimes 0 (runFrom (dmStep c) s0 0 ins)
+    (L = [] ∨ ∃ rest, L = max 0 c.startStep :: rest) ∧
+    (0 ≤ c.startStep → ∀ x, L.head? = some x →
+        c.startStep - c.startVariance ≤ x ∧ x ≤ c.startStep + c.startVariance) ∧
+    GapsIn (c.frequency - c.variance) (c.frequency + c.variance) L := by
+  have hs : s0.next = c.startStep ∧ c.variance < c.frequency ∧ 0 ≤ c.startVariance := by
+    unfold dmInit at h0
+    split at h0
+    · rename_i hv; cases h0
+      refine ⟨rfl, by simpa [PeriodicCfg.valid] using hv.1, by simpa [randintOk] using hv.2⟩
+    · cases h0
+  obtain ⟨h2, h3⟩ := dm_run_from c hs.2.1 ins s0 0 hins
+  rw [hs.1] at h2
+  refine ⟨h2, ?_, h3⟩
+  intro hstart x hx
+  rcases h2 with hnil | ⟨rest, hrest⟩
+  · rw [hnil] at hx; cases hx
+  · rw [hrest] at hx
+    simp at hx
+    have := hs.2.2
+    omega
+
+/-- Every action of the data-manipulation agent is an execute of the configured application on one fixed node of
+`possible_start_nodes`. -/
+theorem C19_dm_action_node (c : PeriodicCfg) (s0 : PeriodicState) (ins : List PIn)
+    (h0 : dmInit c = some s0) (n : Nat) (h : .execute n ∈ runFrom (dmStep c) s0 0 ins) :
+    n < c.nStartNodes ∧ ∀ n', .execute n' ∈ runFrom (dmStep c) s0 0 ins → n' = n := by
+  have hs : s0.startNode = none := by
+    unfold dmInit at h0
+    split at h0
+    · cases h0; rfl
+    · cases h0
+  have := action_node_generic c _ (nodeTri_dm c) ins s0 0 (by intro m hm; rw [hs] at hm; cases hm) n h
+  exact ⟨this.1, this.2.2⟩
+
+/-- Non-vacuity: start 2 (start variance 3 ignored), frequency 3, variance 1. -/
+example :
+    let c : PeriodicCfg := { startStep := 2, startVariance := 3, frequency := 3, variance := 1, maxExecutions := 1, nStartNodes := 1 }
+    ∃ s0, dmInit c = some s0 ∧
+      execTimes 0 (runFrom (dmStep c) s0 0
+        ((List.range 12).map fun j => ({ d := if j = 2 then 1 else -1, k := 0 } : PIn))) = [2, 6, 8, 10] := by
+  refine ⟨_, rfl, ?_⟩
+  decide
 
 end Primaite.Agents
